@@ -166,6 +166,50 @@ def mviews_strided_vectors():
                       "format": fmt.lstrip("@<="), "ro": 1 if mv.readonly else 0, "madero": 0, "vals": vals, "elems": elems, "stable": 1, "strided": cname + "." + comp})
 
 
+def simple_buffer_consumers():
+    """A consumer that asks for a plain contiguous buffer (struct.unpack_from, bytes(), binascii, file.readinto) must not be
+    handed the memory of a STRIDED array as if it were contiguous: either the request is refused (BufferError) or what the
+    consumer sees are the array's own elements."""
+    import binascii
+    for cname, comp in (("V3fArray", "x"), ("V3fArray", "z"), ("V2dArray", "y"), ("V4fArray", "w"), ("V3iArray", "y")):
+        cls = lookup(cname)
+        if cls is None:
+            continue
+        n = 3
+        v = cls(n)
+        for i in range(n):
+            v[i] = elem(cname, 10 * i + 1)
+        c = getattr(v, comp)
+        want = [ival(c[i]) for i in range(n)]
+        fmt = {"FloatArray": "f", "DoubleArray": "d", "IntArray": "i"}[type(c).__name__]
+        exc, got = 0, []
+        try:
+            got = [ival(x) for x in struct.unpack_from("%d%s" % (n, fmt), c)]
+        except BaseException:  # noqa
+            exc = 1
+        emit({"e": "simplebuf", "cls": cname, "comp": comp, "consumer": "struct.unpack_from", "exc": exc, "got": got, "want": want})
+        exc, got = 0, []
+        try:
+            raw = binascii.hexlify(c)
+            got = [ival(x) for x in struct.unpack("%d%s" % (n, fmt), binascii.unhexlify(raw)[: n * struct.calcsize(fmt)])]
+        except BaseException:  # noqa
+            exc = 1
+        emit({"e": "simplebuf", "cls": cname, "comp": comp, "consumer": "binascii.hexlify", "exc": exc, "got": got, "want": want})
+        # a writer: readinto must not touch the other components
+        import io
+        before = [[ival(x) for x in comps(v[i])] for i in range(n)]
+        exc = 0
+        try:
+            io.BytesIO(struct.pack("%d%s" % (n, fmt), *[elem(type(c).__name__, 70 + i) for i in range(n)])).readinto(c)
+        except BaseException:  # noqa
+            exc = 1
+        after = [[ival(x) for x in comps(v[i])] for i in range(n)]
+        ci = "xyzw".index(comp)
+        others_same = all(after[i][j] == before[i][j] for i in range(n) for j in range(len(before[i])) if j != ci)
+        emit({"e": "simplebuf", "cls": cname, "comp": comp, "consumer": "readinto", "exc": exc, "got": [after[i][ci] for i in range(n)],
+              "want": [70 + i for i in range(n)], "others_same": 1 if others_same else 0})
+
+
 def masked_components():
     """Component views of a MASKED vector array: v[mask].x holds the x of the selected elements, and writing through it
     reaches exactly those elements."""
@@ -758,6 +802,7 @@ def main():
     mviews_strided()
     mviews_strided_vectors()
     masked_components()
+    simple_buffer_consumers()
     huge_indices()
     frombufs()
     arrays2d(rnd, thorough)
